@@ -172,7 +172,9 @@ def patterned_solve_case(fggs, rng, S, viols, obs):
     zero = sr.from_int(0).item()
     scale = rng.choice([0.1, 0.2])
     vals = [0.0, 0.0, 1.0 * scale, 2.0 * scale, 0.5 * scale]
-    pa = TP.gen_pattern(rng, [T, T], lambda: conv(rng.choice(vals), S), zero, structure_p=sp_, share_p=0.5)
+    # the matrix's default need not be the semiring zero (a small value everywhere off the pattern)
+    a_default = zero if rng.random() < 0.7 else conv(rng.choice([0.02, 0.05]) / max(1, n), S)
+    pa = TP.gen_pattern(rng, [T, T], lambda: conv(rng.choice(vals), S), a_default, structure_p=sp_, share_p=0.5)
     shift = rng.random() < 0.35
     if shift:
         # "shift" matrices over a product index set {0..k-1}^m: a physical axis sits at different factor
@@ -192,7 +194,7 @@ def patterned_solve_case(fggs, rng, S, viols, obs):
             row[l], col[l] = 1, 1           # a second axis shared in place
             psz = [k, k]
         vals_ = [1.0 * scale * 3, 2.0 * scale * 3, 0.5]
-        pa = dict(psizes=psz, vaxes=[row, col], default=zero, physical=TP._nested(psz, lambda: conv(rng.choice(vals_), S)), expand=[])
+        pa = dict(psizes=psz, vaxes=[row, col], default=a_default, physical=TP._nested(psz, lambda: conv(rng.choice(vals_), S)), expand=[])
         bfac = [const(rng.randrange(k)) for _ in range(m)]
         if rng.random() < 0.5:
             bfac = [f if not isinstance(f, int) else const(rng.randrange(k)) for f in col]   # b lives where the columns of a can read it
